@@ -1,11 +1,48 @@
 SPEC = dict(
     id="C16",
-    level_text="TODO",
-    level_note="proof (partial - substitution exactness only)",
-    technique="TODO",
+    level_text=(
+        "PROVED (Lean 4, no bounds): substitution exactness of the SQL-to-storage-path rewrite on a token-level model. "
+        "C16_subst_partial: for EVERY raw token stream ts (comments, arbitrary whitespace/newlines, string literals, quoted and "
+        "bare names, any join prefix built from the 11 modifiers + LATERAL, CTEs, sub-queries, function bodies) whose prepared "
+        "form (function-body FROMs masked, comments stripped, whitespace merged: `prep`) is the flattening of an annotated "
+        "statement q of the grammar `Item` (table positions introduced by FROM/JOIN with db.measurement or bare / quoted names, "
+        "annotated CTE-or-base; every other token inert), with and without the database header: "
+        "rewrite hdr ts = unmask (flat (mapRefs hdr q)) - every base-table reference is replaced by its read_parquet call and "
+        "every other token is unchanged - under the decidable carve-out Carve (no comma-join table positions, no "
+        "IS DISTINCT FROM, the CTE registry the code builds agrees with the binder's scoping for every table position, names "
+        "are not join keywords / skip-prefixed, a bare name is not followed by blanks + `.`/`(`, no db.table with the header) and "
+        "outside the two early exits (the text `read_parquet` anywhere; the header-only single-table fast path). The proof goes "
+        "through the four regex passes in the order of the source (pass lemma + per-site lemmas H1-H4). The full statement is "
+        "FALSE of the current source: one kernel-evaluated witness per excluded class (C16_comma_join_/distinct_from_/cte_shadow_/"
+        "cte_quoted_/rp_text_/fastpath_partial_/with_newline_/lateral_newline_/comment_last_byte_witness). "
+        "C16_cache_key: the transform-cache key does NOT determine (sql, header) (C16_cache_key_witness: header `prod`+S vs no "
+        "header + `prod:S`); C16_cache_key_partial proves injectivity among requests that all carry / all lack the header, "
+        "C16_cache_key_mixed characterises the remaining collisions exactly. C16_facts_tied re-checks on every run that the five "
+        "regex literals, skipPrefixes, fromKeywordFunctions, the sentinel, the cache-key construction, the fast-path literals and the "
+        "ORDER and guards of the passes in convertSQLToStoragePaths[WithHeaderDB] are the ones the model was written for. "
+        "NOT PROVED, only validated by the harness: that the token matchers of the model are what the regexes do on rendered "
+        "text (diffed on every generated statement incl. a malformed token soup), that MaskFromKeywordsInFunctionBodies masks "
+        "exactly the function-body FROMs, and the step from exact substitution to equal rows (hypothesis DuckCompositional of "
+        "C16_same_rows) - exercised by running Arc's real query path and a plain DuckDB with one view per measurement on random "
+        "datasets; that differential run is a search/validation, never a proof, and it finds two classes where DuckCompositional "
+        "fails for Arc's replacement text (implicit table alias lost; name case)."),
+    level_note="proof (partial - substitution exactness on the regex path under an explicit carve-out; DuckDB compositionality assumed; 11 known-false input classes witnessed)",
+    technique="Lean 4 proof over a token-level transcription of the regex rewrite (scan = leftmost non-overlapping matcher per pattern, CTE registry, masks, fast path, cache key); regenerated regex literals / pass order / cache-key construction; differential correspondence of the rewritten text and differential execution Arc-vs-DuckDB-with-views",
     factgen=True,
     hooks={"internal/api": "go/hooks/c16_api"},
     harnesses=[dict(name="c16", tags="verif duckdb_arrow", timeout=dict(quick=900, thorough=3000))],
-    trusted_base=[],
-    assumptions=[],
+    trusted_base=[
+        "HYPOTHESIS DuckCompositional (inside C16_same_rows, never an axiom): replacing a base table by an expression producing the same rows preserves the statement's result. The harness shows it is FALSE for Arc's replacement text in two classes: a table referenced by its own name as column qualifier (`cpu.host` after `FROM cpu` became `FROM read_parquet(...)` without alias) and names whose case differs from the stored directory (DuckDB resolves views case-insensitively, the file system does not)",
+        "DuckDB v1.5.x as linked into arc is the ground truth for results; reference = a separate in-memory DuckDB with one VIEW per measurement over exactly its stored files (read_parquet([files], union_by_name=true)), schema `prod` / `\"default\"` for db.measurement, header database = the schema bare names resolve in",
+        "the Go regexp engine is not modelled: the model states per pattern the acceptance condition on tokens (Model/C16.lean header lists the correspondence relied upon: maximal word tokens, placeholders of masked literals are word-like, one whitespace token between words after strip+merge); validated on every generated statement, literals pinned by C16_facts_tied",
+        "the annotation of a statement (which FROM/JOIN name is a CTE in scope, which comma continues a FROM list, which FROM is an operand keyword) is part of the quantified input of the theorems; the harness generator produces it together with the tokens",
+        "Arc side of the differential = request gates (ValidateSQLRequest, header validation, cross-database check) + getTransformedSQLForParallel (transform cache included) + execution on the handler's DuckDB as executeQuery does (parallel executor when chosen; `No files found` = empty result); every 7th statement also goes through the real fiber route POST /api/v1/query and must agree on success/row count",
+        "phase 0 rewrites (RewriteRegexToStringFuncs, time_bucket/date_trunc, LIKE reordering: C17) and partition pruning (C18) are the identity on the generated statements (no such functions, no time-literal predicates); tiering off; local storage backend",
+    ],
+    assumptions=[
+        "comment bodies contain no parentheses, quotes or comment delimiters (the paren-depth scanner of MaskFromKeywordsInFunctionBodies runs before comments are stripped; nested comments / backslash escapes are C15)",
+        "word, number, literal and quoted-identifier tokens are never adjacent in the rendered text (the lexer of the real code would glue them)",
+        "DOUBLE cells are multiples of 0.25 (sums exact, no order-dependent rounding); rows compared as typed values, as sequences only when the statement orders completely",
+        "the parallel-partition executor is reachable only with time predicates (C18) and is therefore not exercised; its merge (concatenation of per-partition results) is outside the model",
+    ],
 )
